@@ -11,6 +11,7 @@ scripted generator that returns the midpoint variates of the specification,
 inverts get_weights, reads the BP-OSD channel probabilities and calls
 update_probabilities; TLC (C07_Data.tla) compares everything with Noise.tla.
 """
+import zlib
 import itertools
 import math
 import sys
@@ -108,7 +109,8 @@ def drive(item):
         p = pn / den
         rr = tuple(x / den for x in r)
         # exactly 0 or 1 as integer literals for every other grid point
-        if (pn + r[0] + 2 * r[1]) % 2 == 0:
+        # (dispersed: every pure channel gets both spellings at an end and inside)
+        if zlib.crc32(repr((0, pn, tuple(r))).encode()) % 2 == 0:
             rr = tuple(int(v) if v in (0.0, 1.0) else v for v in rr)
         em = PauliErrorModel(*rr, deformation_name=dn, deformation_kwargs=dict(kw))
         pi, px, py, pz = em.probability_distribution(code, p)
@@ -323,16 +325,20 @@ def run(tier):
                 jobs.append((name, size, dn, kw, den, ch, common.seed() + 7 * si + k))
     ijobs = []
     biased = [pt for pt in pts if pt[0] in (den // 2, den) and len(set(pt[1])) == 3]
+    # the two rates alternate, so that a truncated slice holds both
+    half_ = [pt for pt in biased if pt[0] == den // 2]
+    full_ = [pt for pt in biased if pt[0] == den]
+    biased = [pt for pair in zip(half_, full_) for pt in pair] + half_[len(full_):] + full_[len(half_):]
     for si, (name, size) in enumerate(dict.fromkeys((s[0], s[1]) for s in subs)):
         if len(codes.deformation_variants(name)) > 2:
-            ijobs.append((name, size, den, biased[si % 3::3][:6 if tier == 'quick' else 40],
+            ijobs.append((name, size, den, (biased[2 * (si % 3):] + biased[:2 * (si % 3)])[:6 if tier == 'quick' else 40],
                           common.seed() + si))
     sjobs = []
     for gi, group in enumerate(SAME_N_GROUPS):
         for dn, kw in (('XZZX', {}), ('XZZX', {'deformation_axis': 'x'}), ('XY', {})):
             if dn == 'XY' and any(codes.dimension(nm) == 3 for nm, _ in group):
                 continue
-            sjobs.append((group, dn, kw, den, biased[gi % 3::3][:4 if tier == 'quick' else 30],
+            sjobs.append((group, dn, kw, den, (biased[2 * gi:] + biased[:2 * gi])[:4 if tier == 'quick' else 30],
                           common.seed() + 31 * gi))
     out = (common.pmap(drive, jobs, procs=15) + common.pmap(interference, ijobs, procs=15)
            + common.pmap(shared_model, sjobs, procs=15))
